@@ -290,5 +290,25 @@ Section Yaml.
     end.
 
   Definition yempty : ycache := {| yc_vsn := None; yc_tab := [] |}.
+
+  (* YamlCache.__files at the end of a history: (name, digest) of every answer
+     given since the last open — re-parsed files AND files served from the hot
+     table alike.  Its digest (YamlCache.close) is the file part of the cache key. *)
+  Fixpoint y_files (evs : list yevent) (outs : list (option (data * list N))) (acc : list (str * list N))
+    : list (str * list N) :=
+    match evs, outs with
+    | YOpen _ :: q, _ :: o => y_files q o []
+    | YLoad name _ _ :: q, Some (_, d) :: o => y_files q o (acc ++ [(name, d)])
+    | YLoad _ _ _ :: q, None :: o => y_files q o acc
+    | _, _ => acc
+    end.
+
+  (* every file loaded since the last open, with the digest of its current content *)
+  Fixpoint y_session (evs : list yevent) (acc : list (str * list N)) : list (str * list N) :=
+    match evs with
+    | [] => acc
+    | YOpen _ :: q => y_session q []
+    | YLoad name _ content :: q => y_session q (acc ++ [(name, H content)])
+    end.
 End Yaml.
 
